@@ -13,6 +13,7 @@ table    flow_mod bytes (built with our own struct code) go through SwitchEnd.rx
 The match is derived from a base frame (fields copied), the probe frames are the base frame
 and frames that differ from it in one OpenFlow field, so hits and near misses dominate.
 """
+import json
 import struct
 
 from hypothesis import strategies as st
@@ -228,8 +229,9 @@ def _mismatch_key(m, frame, in_port, pktf, ref, clause="match"):
           "prereq_garbage": _prereq_garbage(m, blame)}
 
 
-def _differing(m, pktf):
-  e = M.effective(m)
+def _differing(m, pktf, e=None):
+  if e is None:
+    e = M.effective(m)
   n = 0
   for f in M.MATCH_FIELDS:
     v = e[f]
@@ -243,14 +245,29 @@ def _differing(m, pktf):
   return n
 
 
+_PROBE_CACHE = {}
+
+
 def _probes(spec, in_port, whats, ps, pd):
-  out = [("base", FS.mkframe(spec), in_port)]
-  for what in whats:
-    r = FS.perturb(spec, in_port, what, ps, pd)
-    if r is None:
-      continue
-    out.append((what, FS.mkframe(r[0]), r[1]))
-  return out
+  """[(what, frame, in_port, extracted fields, POX packet match)]: the base frame and its one-field
+  perturbations.  Memoised: the grid re-uses the same few probe sets for thousands of matches (the
+  values are pure functions of the arguments and of the code under test)."""
+  key = (json.dumps(spec, sort_keys=True), in_port, tuple(whats), ps, pd)
+  r = _PROBE_CACHE.get(key)
+  if r is None:
+    todo = [("base", spec, in_port)]
+    for what in whats:
+      x = FS.perturb(spec, in_port, what, ps, pd)
+      if x is not None:
+        todo.append((what, x[0], x[1]))
+    r = []
+    for what, sp, port in todo:
+      frame = FS.mkframe(sp)
+      r.append((what, frame, port, M.extract(frame, port), pox_packet_match(frame, port)))
+    if len(_PROBE_CACHE) > 4096:
+      _PROBE_CACHE.clear()
+    _PROBE_CACHE[key] = r
+  return r
 
 
 def _plen(cnt):
@@ -272,22 +289,22 @@ def case_direct(c, out):
     out.label("exact-match")
   if _prereq_garbage(m):
     out.label("prereq-garbage")
-  for what, frame, port in _probes(spec, in_port, c.get("probes", FS.PERTURBATIONS), _plen(nws), _plen(nwd)):
-    pf = M.extract(frame, port)
-    amb = M.ambiguous(m, pf)
+  e = M.effective(m)
+  for what, frame, port, pf, pkm in _probes(spec, in_port, c.get("probes", FS.PERTURBATIONS), _plen(nws), _plen(nwd)):
+    amb = M.ambiguous(m, pf, e)
     if amb:
       for z in amb:
         out.label("ambiguous:" + z)
       out.label("probe-unjudged")
       continue
-    ref = M.matches(m, pf)
-    nd = _differing(m, pf)
+    ref = M.matches(m, pf, e)
+    nd = _differing(m, pf, e)
     out.label("probe-hit" if nd == 0 else ("probe-near-miss" if nd == 1 else "probe-far"))
     if nd <= 1:
       out.nontrivial = True
     if what != "base" and ref:
       out.label("probe-differs-in-ignored-field")
-    got = pox_matches(pm, frame, port)
+    got = pox_matches(pm, frame, port, pkm)
     if got != ref:
       k = _mismatch_key(m, frame, port, pf, ref)
       out.violations.append({"key": k, "msg": "match %s (wildcards %#x) vs probe %r (in_port %d, frame %s): reference says %s, POX says %s; "
@@ -345,8 +362,7 @@ def case_table(c, out):
     pr = [t.effective_priority for t in table]
     if any(pr[i] < pr[i + 1] for i in range(len(pr) - 1)):
       out.fail("table-order", "entries are not sorted by non-increasing effective priority: %r" % (pr,))
-    for what, frame, port in _probes(spec, in_port, c.get("probes", FS.PERTURBATIONS), 32, 32):
-      pf = M.extract(frame, port)
+    for what, frame, port, pf, _pkm in _probes(spec, in_port, c.get("probes", FS.PERTURBATIONS), 32, 32):
       if any(M.ambiguous(e["m"], pf) for e in live):
         out.label("probe-unjudged")
         continue
